@@ -36,7 +36,11 @@ func jsonCheck(r *core.Run, prop string) int {
 		params = map[string]any{"values": 400, "docs": 200}
 	}
 	cases := specgen.SchemaCases(r.Seed, n, true)
-	cases = append(cases, specgen.SchemaFixedCases()...)
+	for _, c := range specgen.SchemaFixedCases() {
+		if !strings.Contains(c.ID, "-addl-") { // those are in SchemaCases already
+			cases = append(cases, c)
+		}
+	}
 	res, err := RunDriver(r, vgen, "jsonmod", cases, DriverOpts{Modes: []string{"json"}, Params: params})
 	if err != nil {
 		r.Inconclusive("%v", err)
